@@ -1,4 +1,5 @@
 """C18 — tree copies are independent; equality of trees, steps and plans is lawful."""
+import re
 import ast, copy, os, random
 import z3
 from vlib import repo, pysym, corpus, lrtab, frames
@@ -432,6 +433,60 @@ def eq_obligations(rep):
     v = pysym.verify('mindsdb_sql.planner.query_plan', 'QueryPlan.__eq__', qp_args(False), qp_post, ex=ex)
     _emit(rep, 'C18.plan.eq', v, 'mindsdb_sql.planner.query_plan:QueryPlan.__eq__', 'ensures plans with pairwise-equal steps compare True', replay=replay_plan_eq)
 
+    # QueryPlan.__eq__ against its specification (a symmetric relation given C18.eq.sym.PlanStep): True only for step lists of
+    # equal length; False only when the lengths differ or an aligned pair of steps compares unequal
+    def qp2_args(ex):
+        x = SymObj({QueryPlan}, 'x', prov='param')
+        y = SymObj({QueryPlan}, 'y', prov='param')
+        x.fields['steps'] = SymSeq('x.steps', lambda e, l: SymObj(None, l, prov='param'), prov='param')
+        y.fields['steps'] = SymSeq('y.steps', lambda e, l: SymObj(None, l, prov='param'), prov='param')
+        ex.path_state.update(x=x, y=y)
+        return [x, y], {}
+
+    def qp2_post(ex, o):
+        if o.kind != 'return':
+            return f'raises {o.value.__name__}'
+        if o.value is not True and o.value is not False:
+            return f'returns {o.value!r}, not a bool'
+        lx, ly = o.state['x'].fields['steps'].len, o.state['y'].fields['steps'].len
+        if o.value is True:
+            ok, m = ex.valid(lx == ly, pc=o.pc)
+            if not ok:
+                return 'plans whose step lists differ in length compare True (so p == q and q == p can differ)' + _lens(m, lx, ly)
+            return None
+        ok, m = ex.valid(lx != ly, pc=o.pc)
+        if ok:
+            return None
+        exits = [c for c in o.choices if ' returns=' in c and not c.endswith('=no')]
+        if exits and all(re.fullmatch(r"loop@\d+ returns=\['zip#\d+\[\*\]\.[01]==zip#\d+\[\*\]\.[01]=F'\]", c) for c in exits):
+            return None
+        return f'plans compare False although neither the lengths differ nor an aligned pair of steps is unequal [{"; ".join(o.choices[-3:])}]' + _lens(m, lx, ly)
+    ex = pysym.Executor()
+    _install_zip(ex)
+    v = pysym.verify('mindsdb_sql.planner.query_plan', 'QueryPlan.__eq__', qp2_args, qp2_post, ex=ex)
+    lens = re.search(r'\[len x=(\d+), len y=(\d+)\]', str(v.detail) or '')
+    _emit(rep, 'C18.eq.sym.QueryPlan', v, 'mindsdb_sql.planner.query_plan:QueryPlan.__eq__',
+          'ensures (x == y) is True => len equal; (x == y) is False => len differ or some aligned pair unequal (symmetric specification)',
+          replay=(lambda: replay_plan_sym(int(lens.group(1)), int(lens.group(2)))) if lens else (lambda: replay_plan_sym(1, 0)))
+
+
+def _lens(m, lx, ly):
+    try:
+        return f' [len x={m.eval(lx, model_completion=True)}, len y={m.eval(ly, model_completion=True)}]'
+    except Exception:
+        return ''
+
+
+def replay_plan_sym(nx, ny):
+    from mindsdb_sql.planner.query_plan import QueryPlan
+    from mindsdb_sql.planner.steps import ProjectStep
+    mk = lambda n: QueryPlan(steps=[ProjectStep(columns=[], dataframe=None) for _ in range(n)])
+    a, b = mk(nx), mk(ny)
+    r1, r2 = (a == b), (b == a)
+    fires = (r1 != r2) or ((r1 is True) != (nx == ny))
+    return {'input': f'a = QueryPlan of {nx} equal steps, b = QueryPlan of {ny} equal steps', 'fires': fires, 'observed': f'a == b is {r1!r}, b == a is {r2!r}',
+            'expected': f'both {nx == ny}'}
+
 
 def post_refl_sym(ex, o):
     if o.kind != 'return':
@@ -446,8 +501,15 @@ def post_refl_sym(ex, o):
 
 
 def _install_zip(ex):
-    """zip(s, s) over the same symbolic sequence: elements pairwise identical (the uniform element stands for both)"""
+    """zip(s, s) over the same symbolic sequence: elements pairwise identical (the uniform element stands for both);
+    zip(s, t) over two sequences: min(len s, len t) pairs of unrelated elements (assumed contract of builtins.zip)"""
     def zip_stub(ex_, a, k, node=None):
+        if len(a) == 2 and a[0] is not a[1] and all(isinstance(q, SymSeq) for q in a):
+            s, t = a
+            z = SymSeq(ex_.fresh_name('zip'), None, prov='fresh')
+            z.elem_factory = lambda e, l: (s.elem_factory(e, l + '.0'), t.elem_factory(e, l + '.1'))
+            ex_.assume(z.len == z3.If(s.len <= t.len, s.len, t.len))
+            return z
         if len(a) == 2 and a[0] is a[1] and isinstance(a[0], SymSeq):
             s = a[0]
             z = SymSeq(ex_.fresh_name('zip'), None, prov='fresh')
